@@ -117,7 +117,9 @@ def cases(draw, v3_weight=1, allow_subrow=True):
     db = vworld.db_from_case(w["db"])
     sizes = [sum(1 for o in db if c01._below(o, tuple(r))) for r in w["roots"]]
     near = sorted({max(1, s + d) for s in sizes for d in (-1, 0, 1)})
-    bulk = draw(st.one_of(st.sampled_from([1, 2, 3]), st.sampled_from(near), st.integers(1, 50)))
+    bulk = draw(st.one_of(st.sampled_from([1, 2, 3]), st.sampled_from(near), st.integers(1, 50), st.integers(1, 50),
+                          # every repetition count: up to the largest max-repetitions the PDU can carry
+                          st.sampled_from([127, 128, 255, 256, 65535, 2 ** 30, 2 ** 30 + 1, 2 ** 31 - 1])))
     script = draw(st.one_of(st.just([]), st.lists(POLICY, min_size=1, max_size=8),
                             # an agent with a small fixed limit of bindings per response, for the whole walk
                             st.integers(1, 5).map(lambda L: [["cut", L]] * 80)))
